@@ -191,3 +191,78 @@ Theorem loop_and_inverse_contain_each_point_exactly_once_linked :
     negb (Contain.brute_contains point (eov point peq sign triage tangent refdir) origin zeroPt L p).
 Proof. exact invert_complement_from_orientation_laws. Qed.
 Print Assumptions loop_and_inverse_contain_each_point_exactly_once_linked.
+
+(** C04 linked down to C02: the same theorems for the REAL crossing predicate on unit points
+    (point := {p | unit_pt p}, sign := RobustSign, triage := the translated triageSign, tangent :=
+    the crosser's early exit).  Only H_STABLE_DET (C02) and H_TANGENT (C03) remain as premises. *)
+From Coq Require Import Permutation.
+From Geo Require Import Proofs.C02_Float Proofs.C03_Extra Proofs.Link_C02_C03 Proofs.Link_C02_C04 Proofs.C04_Tiling.
+
+Theorem invert_complement_real :
+  H_STABLE_DET -> H_TANGENT ->
+  forall (refdir : upoint -> upoint) (origin emptyPt fullPt zeroPt : upoint) (L : loop upoint) (p : upoint),
+    brute_contains upoint (u_eov refdir) origin zeroPt (invert upoint emptyPt fullPt L) p
+    = negb (brute_contains upoint (u_eov refdir) origin zeroPt L p).
+Proof. exact Link_C02_C04.invert_complement_real. Qed.
+Print Assumptions invert_complement_real.
+
+Theorem polygon_invert_complement_real :
+  H_STABLE_DET -> H_TANGENT ->
+  forall (refdir : upoint -> upoint) (origin emptyPt fullPt zeroPt : upoint)
+         (P Q : polygon upoint) (L : loop upoint) (rest : list (loop upoint)) (p : upoint),
+    Permutation (map fst P) (L :: rest) ->
+    Permutation (map fst Q) (invert upoint emptyPt fullPt L :: rest) ->
+    polygon_brute upoint (u_eov refdir) origin zeroPt Q p
+    = negb (polygon_brute upoint (u_eov refdir) origin zeroPt P p).
+Proof. exact Link_C02_C04.polygon_invert_complement_real. Qed.
+Print Assumptions polygon_invert_complement_real.
+
+Theorem polygon_xor_real :
+  H_STABLE_DET -> H_TANGENT ->
+  forall (refdir : upoint -> upoint) (origin zeroPt : upoint) (P : polygon upoint) (p : upoint),
+    polygon_brute upoint (u_eov refdir) origin zeroPt P p
+    = parity upoint (u_eov refdir) origin (sh_ref_inside upoint (polygon_shape upoint zeroPt P))
+             (sh_edges upoint (polygon_shape upoint zeroPt P)) p.
+Proof. exact Link_C02_C04.polygon_xor_real. Qed.
+Print Assumptions polygon_xor_real.
+
+(** tiling, across cube faces: on all 24 face sides the two adjacent faces compute the same
+    vector, so cell loops on different faces share their vertices bit for bit *)
+Theorem c04_cell_loops_share_vertices_across_faces : forall f fu sg f' fu' sg' ng,
+  In (f, fu, sg, f', fu', sg', ng) cube_sides ->
+  forall (t : PrimFloat.float) (c1 c2 : s2_Cell) (k1 k2 : BinNums.Z),
+    s2_Cell_face c1 = f -> s2_Cell_face c2 = f' ->
+    uv_vertex c1 k1 = mk_r2_Point (fst (side_uv fu sg t)) (snd (side_uv fu sg t)) ->
+    uv_vertex c2 k2 = (let t' := if ng then PrimFloat.opp t else t in
+                       mk_r2_Point (fst (side_uv fu' sg' t')) (snd (side_uv fu' sg' t'))) ->
+    s2_Cell_Vertex c1 k1 = s2_Cell_Vertex c2 k2.
+Proof. exact cell_loops_share_vertices_across_faces. Qed.
+Print Assumptions c04_cell_loops_share_vertices_across_faces.
+
+(** tiling, parity part without H-JORDAN: a family of loops using every edge once in each
+    direction contains every point the same number of times modulo 2 *)
+Theorem c04_paired_family_parity :
+  forall (point : Type) (eov : point -> point -> point -> point -> bool) (origin zeroPt : point),
+    eov_sym_cd_law point eov ->
+    forall (P : polygon point), edges_paired point P ->
+    forall p q,
+      Nat.odd (length (filter (fun lh => brute_contains point eov origin zeroPt (fst lh) p) P))
+      = Nat.odd (length (filter (fun lh => brute_contains point eov origin zeroPt (fst lh) q) P)).
+Proof. exact paired_family_count. Qed.
+Print Assumptions c04_paired_family_parity.
+
+(** tiling at a shared vertex: of the k loops filling the k wedges around o (each as
+    LoopFromPoints sees it with o as vertex 1) exactly one contains o *)
+Theorem c04_loops_around_vertex_exactly_one :
+  forall (point : Type) (peq : point -> point -> bool) (sign : point -> point -> point -> BinNums.Z)
+         (refdir : point -> point) (eov : point -> point -> point -> point -> bool)
+         (south : point -> bool) (origin zeroPt : point),
+    law_peq_sym point peq -> law_sign_swap point sign -> law_sign_range point sign ->
+    law_sign_zero_iff point peq sign -> law_occw_split point peq sign ->
+    forall (o : point) (rest : point -> point -> list point) u v l,
+      ccw_listed point peq sign o (u :: v :: l) ->
+      (loop_count point peq sign refdir eov south origin zeroPt o rest (u :: v :: l)
+       + BinInt.Z.b2z (wedge_loop_contains point peq sign refdir eov south origin zeroPt o rest (last l v) u)
+       = 1)%Z.
+Proof. exact loops_around_vertex_exactly_one. Qed.
+Print Assumptions c04_loops_around_vertex_exactly_one.
